@@ -316,6 +316,58 @@ func init() {
 		return cell.V
 	}
 
+	// ---- sync/atomic.Value: one indivisible load/store of an interface value ----
+	atomicValueCell := func(ex *Exec, v Value) *Cell {
+		c := ptrArg(ex, v)
+		st, ok := c.V.(*Struct)
+		if !ok || len(st.F) == 0 {
+			panic(engineErr("atomic.Value: unexpected representation %T", c.V))
+		}
+		return st.F[0]
+	}
+	stdModels["(*sync/atomic.Value).Load"] = func(ex *Exec, c *frame, fn *ssa.Function, a []Value) Value {
+		cell := atomicValueCell(ex, a[0])
+		ex.atomicOps++
+		ex.acquire(ex.lockOf(cell).vc)
+		if cell.V == nil {
+			return Iface{}
+		}
+		return cell.V
+	}
+	stdModels["(*sync/atomic.Value).Store"] = func(ex *Exec, c *frame, fn *ssa.Function, a []Value) Value {
+		cell := atomicValueCell(ex, a[0])
+		iv := ex.forceIface(a[1])
+		if iv.T == nil {
+			ex.goPanicf("sync/atomic: store of nil value into Value")
+		}
+		if cell.Own != nil {
+			ex.recordWrite(cell.Own, c)
+		}
+		cell.V = iv
+		ex.atomicOps++
+		ex.release(&ex.lockOf(cell).vc)
+		return nil
+	}
+	stdModels["(*sync/atomic.Value).Swap"] = func(ex *Exec, c *frame, fn *ssa.Function, a []Value) Value {
+		cell := atomicValueCell(ex, a[0])
+		iv := ex.forceIface(a[1])
+		if iv.T == nil {
+			ex.goPanicf("sync/atomic: swap of nil value into Value")
+		}
+		if cell.Own != nil {
+			ex.recordWrite(cell.Own, c)
+		}
+		old := cell.V
+		cell.V = iv
+		ex.atomicOps++
+		ex.acquire(ex.lockOf(cell).vc)
+		ex.release(&ex.lockOf(cell).vc)
+		if old == nil {
+			return Iface{}
+		}
+		return old
+	}
+
 	// ---- sync ----
 	stdModels["(*sync.Mutex).Lock"] = func(ex *Exec, c *frame, fn *ssa.Function, a []Value) Value {
 		l := ex.lockOf(ptrArg(ex, a[0]))
